@@ -73,6 +73,7 @@ struct Op {
     string ff_kind; int ff_errno = 0; long long ff_at = -1; int ff_transient = 0; // FILE fault
     string name;                // FILE: the operand as the user typed it (empty: "sim:<n>"); made unique per invocation by the harness
     int fkind = 0;              // FILE: what fstat() says - 0 regular file (st_size = length), 1 FIFO/pipe (st_size = 0)
+    int via = 0;                // FILE: how the operand reaches the file - 0 directly, 1 the operand is a symbolic link to it (lstat() says S_IFLNK, stat() follows)
     string of_kind; long long of_at = -1; int of_errno = 0;                        // INVOKE: stdout fault
     int nostdin = 0;            // INVOKE: the tool was started with standard input closed (cron, daemons, `<&-`): the first descriptor it opens is 0
     int tty = 0;                // INVOKE: bit 0 = stdout is a terminal, bit 1 = stderr is a terminal (what isatty() says)
@@ -89,6 +90,7 @@ static sj::Value op_to_json(const Op &op) {
         sj::Value c = sj::Value::array(); for (auto x : op.chunks) c.push(sj::Value::integer(x));
         j.set("chunks", c);
         if (op.fkind) j.set("kind", op.fkind);
+        if (op.via) j.set("via", op.via);
         if (!op.name.empty()) j.set("name", op.name);
         if (!op.ff_kind.empty()) { sj::Value f = sj::Value::object(); f.set("kind", op.ff_kind); f.set("errno", op.ff_errno); f.set("at", op.ff_at); f.set("transient", op.ff_transient); j.set("ff", f); }
     }
@@ -112,7 +114,7 @@ static Plan plan_from_json(const sj::Value &j) {
     if (ops) for (auto &e : ops->a) {
         Op op; op.k = e.gets("k");
         if (op.k != "INVOKE" && op.k != "FILE" && op.k != "LINE") continue;
-        op.s = e.gets("s"); op.t = (int)e.geti("t"); op.fkind = (int)e.geti("kind"); op.loc = (int)e.geti("loc"); op.usage = (int)e.geti("usage"); op.tty = (int)e.geti("tty"); op.nostdin = (int)e.geti("nostdin"); op.name = e.gets("name"); if (op.name.find('\0') != string::npos) op.name = op.name.substr(0, op.name.find('\0'));
+        op.s = e.gets("s"); op.t = (int)e.geti("t"); op.fkind = (int)e.geti("kind"); op.via = (int)e.geti("via"); op.loc = (int)e.geti("loc"); op.usage = (int)e.geti("usage"); op.tty = (int)e.geti("tty"); op.nostdin = (int)e.geti("nostdin"); op.name = e.gets("name"); if (op.name.find('\0') != string::npos) op.name = op.name.substr(0, op.name.find('\0'));
         const sj::Value *c = e.get("chunks"); if (c) for (auto &x : c->a) op.chunks.push_back(x.i < 1 ? 1 : x.i);
         const sj::Value *f = e.get("ff");
         if (f && f->kind == sj::Value::Obj) { op.ff_kind = f->gets("kind"); op.ff_errno = (int)f->geti("errno"); op.ff_at = f->geti("at", -1); op.ff_transient = (int)f->geti("transient"); }
@@ -124,7 +126,7 @@ static Plan plan_from_json(const sj::Value &j) {
 }
 
 // structured view of a plan (ops interpreted modulo structure: any subsequence is legal)
-struct SFile { string name; int fkind = 0; string data; vector<long long> chunks; string ff_kind; int ff_errno = 0; long long ff_at = -1; int ff_transient = 0; int nlines = 0; };
+struct SFile { string name; int fkind = 0; int via = 0; string data; vector<long long> chunks; string ff_kind; int ff_errno = 0; long long ff_at = -1; int ff_transient = 0; int nlines = 0; };
 struct SInv { vector<SFile> files; string of_kind; long long of_at = -1; int of_errno = 0; int loc = 0; int usage = 0; int tty = 0; int nostdin = 0; };
 static vector<SInv> structure(const Plan &p) {
     vector<SInv> inv;
@@ -132,7 +134,7 @@ static vector<SInv> structure(const Plan &p) {
         if (op.k == "INVOKE") { SInv i; i.of_kind = op.of_kind; i.of_at = op.of_at; i.of_errno = op.of_errno; i.loc = op.loc; i.usage = op.usage; i.tty = op.tty; i.nostdin = op.nostdin; inv.push_back(i); }
         else if (op.k == "FILE") {
             if (inv.empty()) inv.push_back(SInv());
-            SFile f; f.fkind = op.fkind; f.name = op.name; f.chunks = op.chunks; f.ff_kind = op.ff_kind; f.ff_errno = op.ff_errno; f.ff_at = op.ff_at; f.ff_transient = op.ff_transient;
+            SFile f; f.fkind = op.fkind; f.via = op.via; f.name = op.name; f.chunks = op.chunks; f.ff_kind = op.ff_kind; f.ff_errno = op.ff_errno; f.ff_at = op.ff_at; f.ff_transient = op.ff_transient;
             if (inv.back().files.size() < 400) inv.back().files.push_back(f);
         } else {
             if (inv.empty()) inv.push_back(SInv());
@@ -342,6 +344,41 @@ extern "C" int __wrap_fstat(int fd, struct stat *st) {
         return 0;
     }
     return __real_fstat(fd, st);
+}
+
+// the same file system by path name: stat() follows a symbolic-link operand, lstat() describes the link itself;
+// an operand whose open fails because the name does not resolve does not stat either
+static int sim_stat_path(int idx, struct stat *st, bool follow) {
+    const SFile &f = *S->fs[idx].f;
+    if (f.ff_kind == "open") { int e = f.ff_errno ? f.ff_errno : ENOENT; if (e == ENOENT || e == ENOTDIR || e == ELOOP || e == ENAMETOOLONG) { errno = e; return -1; } }
+    memset(st, 0, sizeof *st);
+    st->st_blksize = 4096; st->st_nlink = 1;
+    if (f.via && !follow) { st->st_mode = S_IFLNK | 0777; st->st_size = 17; return 0; }
+    st->st_mode = f.fkind ? (S_IFIFO | 0600) : (S_IFREG | 0644);
+    st->st_size = f.fkind ? 0 : (off_t)f.data.size();
+    return 0;
+}
+extern "C" int __real_stat(const char *, struct stat *); extern "C" int __real_lstat(const char *, struct stat *);
+extern "C" int __real_fstatat(int, const char *, struct stat *, int); extern "C" int __real_access(const char *, int);
+extern "C" int __wrap_stat(const char *path, struct stat *st) { int idx = sim_lookup(path); if (S && idx >= 0 && !S->in_harness) return sim_stat_path(idx, st, true); return __real_stat(path, st); }
+extern "C" int __wrap_lstat(const char *path, struct stat *st) { int idx = sim_lookup(path); if (S && idx >= 0 && !S->in_harness) return sim_stat_path(idx, st, false); return __real_lstat(path, st); }
+extern "C" int __wrap_stat64(const char *path, struct stat *st) { return __wrap_stat(path, st); }
+extern "C" int __wrap_lstat64(const char *path, struct stat *st) { return __wrap_lstat(path, st); }
+extern "C" int __wrap_fstatat(int dfd, const char *path, struct stat *st, int flags) {
+    int idx = sim_lookup(path);
+    if (S && idx >= 0 && !S->in_harness) return sim_stat_path(idx, st, !(flags & AT_SYMLINK_NOFOLLOW));
+    return __real_fstatat(dfd, path, st, flags);
+}
+extern "C" int __wrap_fstatat64(int dfd, const char *path, struct stat *st, int flags) { return __wrap_fstatat(dfd, path, st, flags); }
+extern "C" int __wrap_access(const char *path, int mode) {
+    int idx = sim_lookup(path);
+    if (S && idx >= 0 && !S->in_harness) {
+        const SFile &f = *S->fs[idx].f;
+        if (f.ff_kind == "open") { errno = f.ff_errno ? f.ff_errno : ENOENT; return -1; }
+        if (mode & (W_OK | X_OK)) { errno = EACCES; return -1; }
+        return 0;
+    }
+    return __real_access(path, mode);
 }
 
 static ssize_t out_cb(void *c, const char *buf, size_t size) {
@@ -838,6 +875,7 @@ static Plan gen_plan(const string &cfg, uint64_t seed, long long index) {
         }
         for (int fi = 0; fi < nf; fi++) {
             Op fo; fo.k = "FILE"; fo.fkind = sim_below(&w, 7) == 0 ? 1 : 0;      // one operand in seven is a FIFO / pipe (fstat says size 0)
+            fo.via = sim_below(&w, 5) == 0 ? 1 : 0;                               // one operand in five is a symbolic link to the file
             {   // what the user typed: one operand in five has a name that is awkward for whoever prints, formats or parses it
                 sim_rng nr = sim_derive(rs, 1000 + (uint64_t)iv * 500 + (uint64_t)fi);
                 if (sim_below(&nr, 5) == 0) {
